@@ -1,6 +1,6 @@
 (* Props/C05.v — C05 property theorems only. *)
 From Coq Require Import List ZArith NArith Bool Arith.
-From Verif Require Import Model.C05_Upload Proofs.C05.
+From Verif Require Import Model.C05_Upload Model.C05_Chunk Proofs.C05 Proofs.C05c.
 Import ListNotations.
 Open Scope Z_scope.
 
@@ -91,6 +91,22 @@ Proof. exact layout_put_succeeds. Qed.
 Print Assumptions C05_layout_conforming_succeeds.
 
 (* non-vacuity: boundary lengths, partial acknowledgements and a fall-back all reach Done in the model *)
+(* "when the destination asks for a different chunk size": the rule both POST sites apply to host.BlobChunk when a registry
+   announces OCI-Chunk-Min-Length (Model/C05_Chunk.v).  For every host setting (none, below or above the client default),
+   every default and every announced minimum within the client's chunk limit, the buffer the chunked upload allocates is at
+   least the announced minimum; the rule never lowers a configured chunk size and never exceeds the limit.  Comparing
+   against max(host setting, default) instead (a past "simplification") is refuted: a host configured below the default
+   stays under the minimum. *)
+Theorem C05_chunk_honours_minimum : forall hc d lim m, (0 < d)%Z -> (m <= lim)%Z -> (m <= buf_size (raise hc d lim m) d)%Z.
+Proof. exact chunk_honours_minimum. Qed.
+Print Assumptions C05_chunk_honours_minimum.
+Theorem C05_chunk_raise_monotone_bounded : forall hc d lim m, (0 < hc)%Z -> (hc <= lim)%Z -> (hc <= raise hc d lim m <= lim)%Z.
+Proof. intros. split; [now apply raise_never_lowers|now apply raise_bounded]. Qed.
+Print Assumptions C05_chunk_raise_monotone_bounded.
+Theorem C05_max_comparison_refuted : exists hc d lim m, (0 < d)%Z /\ (m <= lim)%Z /\ (buf_size (raise_max hc d lim m) d < m)%Z.
+Proof. exact raise_max_refuted. Qed.
+Print Assumptions C05_max_comparison_refuted.
+
 Example C05_nonvacuous :
   let s := [1;2;3;4;5;6;7;8;9]%N in
   fst (fst (upload 40 s 4 [] [SDrop 1; SAccept; SDrop 4; SReloc] None 0)) = Done /\
